@@ -61,6 +61,23 @@ try:
             verdict(True, "a merge without conflicting regions reported a text conflict, wrote helper files or changed a line, because a user "
                           "line looks like a conflict marker", input=dict(base=b, this=b + "T\n", other="O\n" + b),
                     observed=str((text, helpers, [str(c) for c in conflicts])))
+    # resolving with take-this / take-other: the file holds exactly the THIS or OTHER text, the helper files and the conflict record go
+    from breezy import conflicts as _conf
+    for action, want_text in (("take_this", "a\nT\nc\n"), ("take_other", "a\nO\nc\n")):
+        tried += 1
+        d, wt, conflicts = scenario("resolve_" + action, "a\nb\nc\n", "a\nT\nc\n", "a\nO\nc\n")
+        if not conflicts:
+            verdict(True, "no text conflict to resolve in the resolution scenario")
+        _conf.resolve(wt, ["f"], action=action)
+        wt2 = wt.controldir.open_workingtree()
+        text = open(os.path.join(d, "f")).read()
+        helpers = sorted(x for x in os.listdir(d) if x.startswith("f."))
+        left = [c for c in wt2.conflicts() if c.typestring == "text conflict"]
+        with wt2.lock_read():
+            fid_ok = wt2.path2id("f") is not None
+        if text != want_text or helpers or left or not fid_ok:
+            verdict(True, "resolving a text conflict with %s did not leave exactly that side's text without helper files and conflict record" % action,
+                    observed=str((text, helpers, [str(c) for c in left], fid_ok)), expected=str((want_text, [], [], True)))
     # F5: a user line that begins with the sentinel, in a merge without conflicting regions
     tried += 1
     d, wt, conflicts = scenario("sentinel", "a\nb\nc\n", "a\nb\nc\n" + SENTINEL + " my line\n", "O\na\nb\nc\n")
